@@ -571,6 +571,22 @@ impl Version {
 
         assert_eq!(affected_tables.len(), ids.len(), "invalid table IDs");
 
+        // NOTE: Keep the moved tables grouped by the run they came from (in read order),
+        // otherwise overlapping runs (e.g. of L0) would be fused into a single run of
+        // overlapping tables, which breaks point reads and run invariants
+        let moved_runs = self
+            .iter_levels()
+            .flat_map(|lvl| lvl.iter())
+            .filter_map(|run| {
+                Run::new(
+                    run.iter()
+                        .filter(|x| ids.contains(&x.id()))
+                        .cloned()
+                        .collect(),
+                )
+            })
+            .collect::<Vec<_>>();
+
         let mut levels = vec![];
 
         for (level_idx, level) in self.levels.iter().enumerate() {
@@ -587,9 +603,7 @@ impl Version {
                 .collect::<Vec<_>>();
 
             if level_idx == dest_level {
-                if let Some(run) = Run::new(affected_tables.clone()) {
-                    runs.insert(0, run);
-                }
+                runs.splice(0..0, moved_runs.iter().cloned());
             }
 
             let runs = optimize_runs(runs);
